@@ -505,6 +505,8 @@ def canon(fn) -> str:
             if isinstance(sc, (ast.FunctionDef, ast.AsyncFunctionDef)):
                 _norm_loops(sc)
                 _inline_temps(sc)
+                _norm_loops(sc)
+        _norm_loops(fn)      # a loop body reduced to a single append by the inlining is a comprehension too
     except _Bail:
         pass
     _alpha(fn)
@@ -554,6 +556,8 @@ _SAME = [
     ("def f(q, i, h):\n    u = q[i] / h\n    v = q[i] * 2\n    return u + v\n", "def f(q, i, h):\n    s = q[i]\n    u = s / h\n    v = s * 2\n    return u + v\n"),
     ("def f(self, rows):\n    t = [['h']]\n    for r in rows:\n        t.append([r])\n    return t\n", "def f(self, rows):\n    t = [['h']]\n    t.extend([r] for r in rows)\n    return t\n"),
     ("def f(x: int) -> int:\n    y: int = x + 1\n    return y\n", "def f(x):\n    return x + 1\n"),
+    ("def f(self, n):\n    out = []\n    for i in range(n):\n        g = self.t[i]\n        v = g(1).tolist()\n        out.append(v)\n    return out\n",
+     "def f(self, n):\n    return [self.t[i](1).tolist() for i in range(n)]\n"),
     ("def f(t):\n    if t == 1:\n        return 'a'\n    elif t == 2:\n        return 'b'\n    else:\n        raise TypeError('x')\n",
      "def f(t):\n    if t == 1:\n        return 'a'\n    if t == 2:\n        return 'b'\n    raise TypeError('x')\n"),
     ("def f(self):\n    if self.k in [A.x, A.y]:\n        return 1\n    return 0\n", "def f(self):\n    kinds = (A.x, A.y)\n    if self.k in kinds:\n        return 1\n    return 0\n"),
